@@ -3,7 +3,7 @@
 //!
 //! Mode "trace" (one scheduler on this thread): coroutine bodies are instruction lists
 //! (`work n`, `sysenter`, `sysexit`, `yield`, and the real-time helpers `spin_ms`, `spin_flag`,
-//! `set_flag`, which count as `work 0`). A recording listener added after the `MonitorListener`
+//! `set_flag`, `raise` (a SIGURG sent to this thread on the spot), which count as `work 0`). A recording listener added after the `MonitorListener`
 //! reports every state change together with hook H6: does the monitor's node set hold a node of
 //! this thread right after the `MonitorListener` ran. Bodies report `work` and `yield` themselves.
 //! Harness bookkeeping runs with SIGURG blocked, so that a signal can only land inside the
@@ -141,6 +141,15 @@ mod imp {
                 }
                 "set_flag" => {
                     FLAG.store(true, Ordering::Release);
+                    if record {
+                        log(|| json!({"b": [c, "work", "0"]}));
+                    }
+                }
+                "raise" => {
+                    // a SIGURG delivered right here, whatever the monitor thinks
+                    unsafe {
+                        let _ = libc::raise(libc::SIGURG);
+                    }
                     if record {
                         log(|| json!({"b": [c, "work", "0"]}));
                     }
